@@ -465,7 +465,15 @@ EscBodies == {<<BS, e>> : e \in SimpleEscChars \cup {48, 56, 57, 99, 101, 117, 8
 CatBodies == {<<97>>, <<195, 169>>, <<240, 159, 152, 128>>, <<BS, 49, 48, 49>>, <<BS, 120, 102, 102>>,
               <<BS, 120, 49, 48, 48>>, <<>>, <<BS, 49>>, <<56>>}
 
-Families == {"byte", "utf8", "oct", "hex", "esc", "cat", "arr"}
+(* literals used as expressions (each becomes an anonymous static object found through the string pool of decl.c    *)
+(* stringdecl): bodies chosen so that, within one prefix, several literals have the same number of units and share   *)
+(* leading units / differ only in the last unit / differ only in the high byte(s) of a unit (0x62 'b', 0x162, 0x1F600) *)
+PoolBodies == {<<97, 98>>, <<97, 99>>, <<97, 197, 162>>, <<97, 206, 177>>, <<97>>, <<98>>, <<>>,
+               <<97, 98, 99, 100>>, <<97, 98, 99, 121>>, <<97, 98, 99, 197, 162>>, <<97, 240, 159, 152, 128, 100>>,
+               <<107, 101, 121, 61, 49>>, <<107, 101, 121, 61, 88>>, <<107, 101, 121, 61, 240, 159, 152, 128>>,
+               <<107, 101, 121, 61, BS, 120, 51, 49>>}
+
+Families == {"byte", "utf8", "oct", "hex", "esc", "cat", "arr", "pool"}
 
 Chunks == {[fam |-> f, targ |-> t, pfx |-> p] : f \in Families, t \in Targets, p \in PrefixSet}
 
@@ -490,6 +498,7 @@ ChunkCases(ch) ==
     [] ch.fam = "hex"  -> {One("str", t, p, s) : s \in HexBodies} \cup {One("chr", t, p, s) : s \in HexChrBodies}
     [] ch.fam = "esc"  -> {One(x, t, p, s) : x \in {"chr", "str"}, s \in EscBodies}
     [] ch.fam = "arr"  -> ArrCases(t, p)
+    [] ch.fam = "pool" -> {One("str", t, p, s) : s \in PoolBodies}
     [] ch.fam = "cat"  ->
          {[ctx |-> "str", targ |-> t, parts |-> <<[pfx |-> p, body |-> a], [pfx |-> q, body |-> b]>>]
             : q \in PrefixSet, a \in CatBodies, b \in CatBodies}
